@@ -122,3 +122,44 @@ func HarnessC12(op, once int) {
 }
 
 func hClassifyOnce(once int) string { return "" }
+
+// HarnessC12Par — outcome clause under explored interleavings: two goroutines call
+// the same target through the same shared run-once converter (and shared option
+// values) with different inputs. Each concurrent call must return an outcome that a
+// sequential execution of the two calls can return: both see f(x1) (A first) or both
+// see f(x2) (B first).
+func HarnessC12Par(onceForm, maxSwitches int) {
+	hOrderSites(0)
+	w := &hWorld{}
+	w.Convs = []hFuncSpec{{ID: 1, Form: onceForm, In: []hLabel{{T: hTP0}}, Out: []hLabel{{Name: "a", T: hTP1}}, Once: true}}
+	w.Target = hFuncSpec{ID: 0, Form: hFormStruct, In: []hLabel{{Name: "a", T: hTP1}}, Out: []hLabel{{T: hTP2}}}
+	_, ok := w.hBuildAll()
+	if !ok {
+		vnAssume(false)
+	}
+	target, once := w.Funcs[0], w.Funcs[1]
+	shared := ConverterFunc(once)
+	x1, x2 := vnPayload("x", 1), vnPayload("x", 2)
+	vnNote(fmt.Sprintf("two goroutines sharing target, run-once converter (%s form) and its option value; <=%d context switches", hFormNames[onceForm], maxSwitches))
+	vnOnDivergence("", "")
+	vnEpoch(target, once, shared)
+	var r1, r2 Result
+	vnPar(func() { r1 = target.Call(Typed(hP0{x1}), shared) }, func() { r2 = target.Call(Typed(hP0{x2}), shared) }, maxSwitches)
+	vnAssert(r1.Err() == nil && r2.Err() == nil, "C12.par.both-calls-succeed")
+	if r1.Err() != nil || r2.Err() != nil {
+		return
+	}
+	ids1, ids2 := hResultIDs(r1), hResultIDs(r2)
+	if len(ids1) != 1 || len(ids2) != 1 {
+		vnAssert(false, "C12.par.result-shape")
+		return
+	}
+	// the target returns an uninterpreted function of what it received
+	aFirst := vnUF("f0o0", vnUF("f1o0", x1))
+	bFirst := vnUF("f0o0", vnUF("f1o0", x2))
+	seqAB := vnAnd(ids1[0].ID == aFirst, ids2[0].ID == aFirst)
+	seqBA := vnAnd(ids1[0].ID == bFirst, ids2[0].ID == bFirst)
+	vnAssert(vnOr(seqAB, seqBA), "C12.par.outcomes-are-sequentially-possible")
+	vnAssert(vnSharedWrites() == 0, "C12.par.no-unguarded-write-to-shared-state")
+	vnCover("C12.par-checked")
+}
